@@ -323,6 +323,61 @@ def jit_path(case):
   return {'evals': evals, 'nontrivial': True, 'outcome': [fam, len(specs)]}
 
 
+def keys(case):
+  """target_key / pred_key / domain_id_key: the statistic is computed from the entries the KEYS name (any str, including
+  '' and the name of the other field), while entries under the default names hold decoys. Oracle: the default-key twin
+  on the bare values (whose definition the grid sub-space decides)."""
+  import jax.numpy as jnp
+  spec, fam, c, l = case['spec'], case['family'], case['C'], case.get('L')
+  if fam == 'cls':
+    rows = [(t, sc) for sc in cls_scores(c, with_inf=False)[::3] for t in range(c)]
+  else:
+    mats = [np.array(m, np.float64).reshape(l, c).tolist() for m in itertools.product((-1.0, 0.0, 1.0), repeat=l * c)][::11]
+    rows = [(list(t), m) for m in mats for t in itertools.product(range(c), repeat=l)][::3]
+  perdom = spec['name'] == 'PerDomainMetric'
+  inner = spec['base'] if perdom else spec
+  has_pred = inner['name'] not in PRED_FREE
+  base = mr.build(spec)
+  evals, outs = 0, set()
+  for tk in ('y', 'label', '', 'x'):
+    for pk in ((None, 'logits', '', 'y') if has_pred else (None,)):
+      for dk in (('domain_id', 'dom', '') if perdom else (None,)):
+        if dk is not None and dk == tk:
+          continue
+        sp_in = dict(inner, target_key=tk)
+        if has_pred:
+          sp_in['pred_key'] = pk
+        twin_spec = dict(spec, base=sp_in, domain_id_key=dk) if perdom else sp_in
+        twin = mr.build(twin_spec)
+        for i, (y, pred) in enumerate(rows):
+          y_a = jnp.asarray(np.asarray(y, np.int32))
+          p_a = jnp.asarray(np.asarray(pred, np.float32))
+          decoy_y = jnp.asarray((np.asarray(y, np.int32) + 1) % c)
+          decoy_p = -p_a + 0.25
+          ex0 = {'y': y_a}
+          ex = {'y': decoy_y, 'x': decoy_y, 'label': decoy_y, '': decoy_y}
+          ex[tk] = y_a
+          if perdom:
+            d = i % spec['num_domains']
+            ex0['domain_id'] = jnp.asarray(np.int32(d))
+            for kk in ('domain_id', 'dom'):
+              ex[kk] = jnp.asarray(np.int32((d + 1) % spec['num_domains']))
+            if '' not in (tk,):
+              ex[''] = jnp.asarray(np.int32((d + 1) % spec['num_domains']))
+            ex[dk] = jnp.asarray(np.int32(d))
+          prediction = p_a if pk is None else {**{kk: decoy_p for kk in ('logits', '', 'y', 'pred')}, pk: p_a}
+          want = mr.stat_arrays(base.evaluate_example(ex0, p_a))
+          got = mr.stat_arrays(twin.evaluate_example(ex, prediction))
+          ok = got[0] == want[0] and all(np.asarray(g).shape == np.asarray(w).shape and np.array_equal(np.asarray(g), np.asarray(w), equal_nan=True)
+                                         for g, w in zip(got[1:], want[1:]))
+          require(ok, 'metric with target_key=%r pred_key=%r domain_id_key=%r does not read the entries its keys name' % (tk, pk, dk),
+                  [np.asarray(w).tolist() for w in want[1:]], [np.asarray(g).tolist() for g in got[1:]],
+                  case=dict(case, twin=twin_spec, row={'y': np.asarray(y).tolist(), 'pred': np.asarray(pred).tolist()}))
+          evals += 1
+        outs.add(core.digest([tk, pk, dk]))
+  return {'evals': evals, 'nontrivial': True, 'outcome': sorted(outs)}
+
+
 def replaced(case):
   """metric.replace(field=value) on an object that has ALREADY been used must behave like a freshly built metric."""
   import jax.numpy as jnp
@@ -372,7 +427,7 @@ def replaced(case):
   return {'evals': 3, 'nontrivial': True, 'outcome': [spec['name'], field]}
 
 
-SUBS = {'grid': grid, 'identities': identities, 'dtypes': dtypes, 'protocol': protocol, 'ce_infinite': ce_infinite, 'jit_path': jit_path, 'replaced': replaced}
+SUBS = {'grid': grid, 'identities': identities, 'dtypes': dtypes, 'protocol': protocol, 'ce_infinite': ce_infinite, 'jit_path': jit_path, 'replaced': replaced, 'keys': keys}
 TIMEOUTS = {'grid': 600, 'identities': 300, 'dtypes': 600, 'protocol': 600, 'ce_infinite': 300, 'jit_path': 900, 'replaced': 600}
 
 
@@ -464,6 +519,11 @@ def plan(ctx):
       ('seq', 3, 2, [{'name': 'SequenceTokenAccuracy', 'logits_mask': lm} for lm in lm3]),
       ('seq', 3, 2, [{'name': 'SequenceTokenTopKAccuracy', 'k': 2, 'logits_mask': lm} for lm in lm3]),
       ('seq', 3, 2, [{'name': 'SequenceTokenTopKAccuracy', 'k': k} for k in (0, 1, 2, 3)]),
+      # tuples with EQUAL hashes in CPython (hash(-1) == hash(-2), hash(-inf) == hash(-314159.0)), 0.0 / -0.0, 1 / 1.0 / True
+      ('seq', 3, 2, [{'name': 'SequenceTokenAccuracy', 'logits_mask': lm} for lm in ([0.0, 0.0, -1.0], [0.0, 0.0, -2.0], [0.0, 0.0, '-inf'],
+                                                                                      [0.0, 0.0, -314159.0], [-1.0, 0.0, 0.0], [-2.0, 0.0, 0.0])]),
+      ('seq', 3, 2, [{'name': 'SequenceTokenTopKAccuracy', 'k': 2, 'logits_mask': lm} for lm in ([0.0, -1.0, 0.0], [0.0, -2.0, 0.0], [0.0, '-inf', 0.0],
+                                                                                               [0.0, -314159.0, 0.0])]),
       ('seq', 3, 2, [{'name': 'SequenceTokenAccuracy', 'masked_target_values': mv} for mv in ([], [0], [0, 2], [1])]),
       ('seq', 3, 2, [{'name': 'SequenceTokenAccuracy', 'per_position': pp} for pp in (False, True)]),
       ('seq', 3, 2, [{'name': 'SequenceTokenCrossEntropyLoss', 'masked_target_values': mv, 'per_position': pp}
@@ -495,6 +555,16 @@ def plan(ctx):
       ('seq', 3, 2, {'name': 'SequenceTokenCrossEntropyLoss'}, 'per_position', True),
       ('seq', 3, 2, {'name': 'SequenceLength'}, 'masked_target_values', [2]),
   ]
+  kc = [('cls', 3, None, sp) for sp in specs_cls(3, False) if sp['name'] != 'TopKAccuracy' or sp['k'] in (1, 2)]
+  kc += [('seq', 3, 2, sp) for sp in [
+      {'name': 'SequenceTokenCrossEntropyLoss', 'masked_target_values': [0]}, {'name': 'SequenceCrossEntropyLoss', 'masked_target_values': [0]},
+      {'name': 'SequenceTokenAccuracy', 'masked_target_values': [0], 'logits_mask': [0.0, 0.0, '-inf']},
+      {'name': 'SequenceTokenTopKAccuracy', 'k': 2, 'masked_target_values': [0]}, {'name': 'SequenceTokenCount', 'masked_target_values': [0]},
+      {'name': 'SequenceCount', 'masked_target_values': [0]}, {'name': 'SequenceLength', 'masked_target_values': [0]},
+      {'name': 'SequenceTruncationRate', 'eos_target_value': 1, 'masked_target_values': [0]},
+      {'name': 'SequenceTokenOOVRate', 'oov_target_values': [1], 'masked_target_values': [0]},
+      {'name': 'PerDomainMetric', 'base': {'name': 'SequenceTokenAccuracy', 'masked_target_values': [0]}, 'num_domains': 2}]]
+  ctx.pmap('keys', [{'family': f, 'C': c, 'L': l, 'spec': sp} for f, c, l, sp in kc], chunk=2)
   ctx.pmap('replaced', [{'family': f, 'C': c, 'L': l, 'spec': sp, 'field': fld, 'value': val} for f, c, l, sp, fld, val in rp],
            chunk=1)
   ctx.extra['bounds'] = {'classes': [2, 3], 'seq_shapes_LxC': shapes, 'metric_objects': len(cases)}
